@@ -224,6 +224,13 @@ pub fn raw_entry_op<K: KeyT, V: ValT>(sut: &mut MapSut<K, V>, id: u8, b: RBuild,
                 chk!(c, Some(old) == want, "raw occupied.insert({id}) returned {old}, reference {:?}", want);
                 let (k, v) = o.get_key_value();
                 chk!(c, m.map(|m| m.1) == Some(k.tok()) && v.tok() == t2, "raw occupied.get_key_value({id}) wrong after insert");
+                // key_mut: overwrite the stored key in place with an equal key
+                *o.key_mut() = K::make(id, t1);
+                if let Some(p) = p {
+                    model[p].1 = t1;
+                }
+                chk!(c, o.key().tok() == t1 && o.get_key_value().0.tok() == t1, "raw occupied.key_mut({id}) did not write the stored key");
+                chk!(c, o.into_key().tok() == t1, "raw occupied.into_key({id}) is not the stored key");
             }
         }
         RAct::OccReplaceSome | RAct::OccReplaceNone => {
